@@ -410,6 +410,8 @@ BODY_VARIANTS = {
     "zero-vs-false": ({"application/json": {"schema": {"type": "object"}, "examples": {"a": {"value": {"count": 0}}, "b": {"value": {"count": False}}}}}, [("application/json", {"count": 0}), ("application/json", {"count": False})]),
     "one-vs-true": ({"application/json": {"schema": {}, "examples": {"a": {"value": 1}, "b": {"value": True}}}}, [("application/json", 1), ("application/json", True)]),
     "null": ({"application/json": {"schema": dict(OBJ, nullable=True), "example": None}}, [("application/json", None)]),
+    "named-null": ({"application/json": {"schema": dict(OBJ, nullable=True), "examples": {"cleared": {"value": None}, "set": {"value": {"count": 1, "name": "n"}}}}}, [("application/json", None), ("application/json", {"count": 1, "name": "n"})]),
+    "named-falsy": ({"application/json": {"schema": {}, "examples": {"a": {"value": 0}, "b": {"value": ""}, "c": {"value": []}, "d": {"value": False}}}}, [("application/json", 0), ("application/json", ""), ("application/json", []), ("application/json", False)]),
     "zero": ({"application/json": {"schema": {"oneOf": [OBJ, {"type": "integer"}]}, "example": 0}}, [("application/json", 0)]),
     "false": ({"application/json": {"schema": {"oneOf": [OBJ, {"type": "boolean"}]}, "example": False}}, [("application/json", False)]),
     "empty-object": ({"application/json": {"schema": {"type": "object", "properties": {"name": {"type": "string", "minLength": 3}}}, "example": {}}}, [("application/json", {})]),
